@@ -1,6 +1,7 @@
 #!/bin/bash
 # tools/seedmatrix.sh [tier]: apply every kept seeded change to /repo in turn, run the check of its property, revert.
 # Writes seeded/matrix.json: which check reports which change (rc 1 + VIOLATION line = caught).
+# ONLY="C07 C11" restricts the run to the seeds of these properties; the other entries of matrix.json are kept.
 TIER=${1:-quick}
 cd /verif
 OUT=/verif/seeded/matrix.json
@@ -8,6 +9,7 @@ echo "{" > $OUT.tmp
 first=1
 for d in seeded/C*_*; do
   s=$(basename $d); pid=${s%%_*}
+  if [ -n "$ONLY" ] && ! echo " $ONLY " | grep -q " $pid "; then continue; fi
   if ! git -C /repo apply --check /verif/$d/patch.diff 2>/dev/null; then res="patch does not apply"; rc=9; nv=0; sigs=""; else
     tools/seedtest.sh /verif/$d/patch.diff $pid $TIER > /tmp/seedmatrix_$s.log 2>&1
     rc=$(grep -o "^rc=[0-9]*" /tmp/seedmatrix_$s.log | cut -d= -f2)
@@ -19,4 +21,5 @@ for d in seeded/C*_*; do
   printf ' "%s": {"property": "%s", "tier": "%s", "result": "%s", "rc": %s, "violation_lines": %s, "signatures": "%s"}' "$s" "$pid" "$TIER" "$res" "${rc:-9}" "${nv:-0}" "$sigs" >> $OUT.tmp
   echo "$s $res rc=$rc violations=$nv"
 done
-echo "" >> $OUT.tmp; echo "}" >> $OUT.tmp; mv $OUT.tmp $OUT
+echo "" >> $OUT.tmp; echo "}" >> $OUT.tmp
+if [ -n "$ONLY" ]; then python3 tools/mergematrix.py $OUT $OUT.tmp && rm -f $OUT.tmp; else mv $OUT.tmp $OUT; fi
